@@ -52,6 +52,8 @@ def generator_ref(F, x, b, sigma):
 
 
 class GenOnProduct(probe.Contract):
+    freeze = True  # the oracle sees the arguments as they were at call entry; arrays / lists rewritten by the call are reported
+    input_prop = P
     api = 'tgedmd.generator_on_product'
 
     def post(self, st, res, args, kwargs):
@@ -68,6 +70,8 @@ class GenOnProduct(probe.Contract):
 
 
 class GenOnProductRev(probe.Contract):
+    freeze = True  # the oracle sees the arguments as they were at call entry; arrays / lists rewritten by the call are reported
+    input_prop = P
     api = 'tgedmd.generator_on_product_reversible'
 
     def post(self, st, res, args, kwargs):
@@ -83,6 +87,8 @@ class GenOnProductRev(probe.Contract):
 
 
 class Amuset(probe.Contract):
+    freeze = True  # the oracle sees the arguments as they were at call entry; arrays / lists rewritten by the call are reported
+    input_prop = P
     api = 'tgedmd.amuset_hosvd'
 
     def post(self, st, res, args, kwargs):
